@@ -333,6 +333,8 @@ where
     /// Remove key-value pair from the CAS
     pub fn remove(&self, key: &K) -> Result<bool, LibError> {
         if self.index.read_state().contains_key(key) {
+            #[cfg(feature = "verif-hooks")]
+            crate::verif::point("remove:after_scan");
             let delete_fn = |hashes: &[BlobHash]| -> Result<(), CasManagerError> {
                 self.cas_manager.delete_blobs(hashes).map(|_| ())
             };
@@ -363,6 +365,8 @@ where
             return Ok(0);
         }
 
+        #[cfg(feature = "verif-hooks")]
+        crate::verif::point("remove_range:after_scan");
         let keys_to_remove_count = keys_to_remove.len();
 
         tracing::debug!("Removing {} keys in range {:?}", keys_to_remove_count, range);
@@ -391,6 +395,8 @@ where
             return Ok(None);
         };
 
+        #[cfg(feature = "verif-hooks")]
+        crate::verif::point("read:after_lookup");
         match f(&item) {
             Ok(result) => Ok(Some(result)),
             Err(cas_error) => {
